@@ -232,8 +232,9 @@ fn step(s: &dyn ShapeDyn, d: &Desc, img: &[u8], pop: &PathOp) -> StepResult {
         if obs.value.0 != exp_value {
             if was_refused {
                 if let Op::Assign(_, k) = &pop.op {
-                    // a harness-driven grow sequence on a FlexVec legitimately stops half-way: only validity is judged
-                    let harness_driven = *k == Kind::Grow && format!("{:?}", refmodel::model::desc_at(d, &tree, &pop.path)).contains("Flex");
+                    // kind Grow is a harness-written emplacer (Empty, then pushes): it legitimately stops
+                    // half-way, so only validity is judged for it, not "unchanged"
+                    let harness_driven = *k == Kind::Grow;
                     if !harness_driven {
                         let cause = cause_key(pred.refusal_cause);
                         res.viol.push(("C18", format!("refused_but_changed/{}/{}", name, cause), format!("refused ({:?}; {}) but content changed from {:?} to {:?}", out, pred.refusal_cause.unwrap_or("-"), pre_value, obs.value.0)));
